@@ -4,7 +4,7 @@ CONSTANTS
   MaxAdds = 4
   MaxHeight = 1000
   MaxDisc = 3
-  Amts = {100000, 1000000, 5000000, 25000000, 50000000}
+  Amts = {100000, 370000, 1000000, 1400000, 1470000, 2250000, 3350000, 4300000, 5000000, 5400000, 8400000, 9500000, 25000000, 50000000}
   Cap = 1000000000
   Rates = {12000, 3000, 253, 6000}
   MaxFees = 3
